@@ -148,7 +148,8 @@ def fault_injection(ctx, build, stats):
             }
             for sc, idxs in classes.items():
                 for k, i in enumerate(idxs, 1):
-                    for errno in errnos:
+                    # (the first call of each class also fails with the errno values a driver may treat as "cannot do that here")
+                    for errno in errnos + (["EINVAL", "EOPNOTSUPP", "EROFS", "EBADF"] if k == 1 else []):
                       for persistent in (False, True):
                         if persistent and (k % 3 != 1):
                             continue  # from-the-k-th-call-on failures: every third starting point
